@@ -227,7 +227,12 @@ class C19(Check):
             if m == 2:
                 g = draw(gens.core_grammar(nrules=4, depth=4, mode=draw(st.sampled_from(['text', 'bytes']))))
                 if draw(st.booleans()):
-                    g = g.copy(ignores=[(draw(st.sampled_from([None, 'Sp'])), ('rx', ' +'))], ignore_pos=draw(st.integers(0, 4)))
+                    ign = [(draw(st.sampled_from([None, 'Sp'])), ('rx', ' +'))]
+                    if draw(st.booleans()):
+                        # several ignore statements, anonymous ones next to each other (on one line when the
+                        # layout separates statements by ';')
+                        ign = [(None, ('rx', ' +')), (None, ('lit', 'Z'))] + ([(None, ('lit', 'ZZ'))] if draw(st.booleans()) else [])
+                    g = g.copy(ignores=ign, ignore_pos=draw(st.integers(0, 4)))
                 return g, 'core'
             if m == 3:
                 return peg.G([('rule', 'start', None, draw(ge))]), 'single'
